@@ -29,13 +29,17 @@ func NewRelay(ctx context.Context, in, out ITracer, transformer Transformer) {
 	ch := in.Subscribe()
 	handle := out.RegisterSender()
 	go func() {
+		// cancelled is set to nil once the context is done (a done context is
+		// always ready: selecting on it again would busy-spin until `in` is done)
+		cancelled := ctx.Done()
 		for {
 			select {
 			case <-in.Done():
 				handle.Done()
 				in.Unsubscribe(ch)
 				return
-			case <-ctx.Done():
+			case <-cancelled:
+				cancelled = nil
 				// wait until `in` Tracer is done
 				//return
 			case trace, ok := <-ch:
